@@ -16,7 +16,12 @@
                       fork-less files; forks travel or vanish; new-folder never replaces; well-formed requests
                       change the tree exactly as Files!Do (D = {}) says
             DRIFT     any other disagreement between model and code (counts, fork totals, odd requests)
-   After every step the model state is set to the observed tree, so one disagreement is reported once.  *)
+            (a folder whose list request gets no reply at all is a "listing" finding; cause LOOP = the folder holds
+            a self-referencing alias, cause F23 = the names differ exactly by the infix stripping)
+   After every step the model state is set to the observed tree, so one disagreement is reported once.
+   An observation is "explained" if Files!Do reproduces it for one of DevSets (the statement's semantics first, then
+   the pinned tree's named deviations, then the alternative repairs): the check keeps passing without drift while the
+   repository is repaired one defect at a time.  *)
 EXTENDS Files, Json
 
 VARIABLES l, seen
@@ -32,12 +37,15 @@ TreeOf(snap, rp) ==
         LET n == CHOOSE x \in S : x.p = p
         IN [k |-> n.k, s |-> IF Inside(p, rp) THEN n.s ELSE -1, c |-> n.c, t |-> n.t]]
 
-Pinned == {"F4", "F10", "F11", "F12", "F23", "F24"}
+Pinned == {"F4", "F10", "F11", "F12", "F23", "F24", "F26"}
 Suspects == {"F10", "F11", "F12", "F24"}
 (* the deviation sets tried, in this order, to explain an observation *)
-DevSets == <<{}, Pinned, Pinned \ {"F4"}>> \o
-           <<{"F4"}, {"F10"}, {"F10b"}, {"F11"}, {"F11b"}, {"F12"}, {"F23"}, {"F24"},
-             {"F4", "F10b"}, {"F4", "F11b"}, {"F10b", "F11b"}, {"F4", "F10b", "F11b"}, {"F4", "F24"}>>
+Repairs == {"F10b", "F11b", "F24b", "F25b"}
+RECURSIVE SetToSeq(_)
+SetToSeq(S) == IF S = {} THEN <<>> ELSE LET x == CHOOSE y \in S : TRUE IN <<x>> \o SetToSeq(S \ {x})
+DevSets == <<{}, Pinned, Pinned \ {"F4"}, Pinned \ {"F4", "F26"}>> \o
+           <<{"F4"}, {"F10"}, {"F11"}, {"F12"}, {"F23"}, {"F24"}, {"F26"}>> \o
+           SetToSeq((SUBSET Repairs) \ {{}}) \o SetToSeq({r \cup {"F4"} : r \in SUBSET Repairs})
 
 Report(kind, prop, e, cls, extra) ==
   PrintT(kind \o " " \o ToJson([prop |-> prop, run |-> e.run, line |-> l, op |-> e.op, cls |-> cls, step |-> e, detail |-> extra]))
@@ -129,7 +137,12 @@ ReqEv ==
                   /\ (e.kind = "list" => (r.listed = (e.listed = 1)) /\ (r.listed => r.names = obsNames))
       explained == \E i \in DOMAIN DevSets : Match(DevSets[i])
       viol == outObs # {} \/ e.disclosed = 1
-      blame == {d \in Suspects : ~ContainedRes(tree, R(Pinned), rootp, usersp) /\ ContainedRes(tree, R(Pinned \ {d}), rootp, usersp)}
+      (* the deviation set that reproduces the observation (the pinned tree's if none does), and the members of it
+         without which the model would have stayed inside *)
+      Expl(i) == Match(DevSets[i]) /\ ~ContainedRes(tree, R(DevSets[i]), rootp, usersp)
+      dm == IF \E i \in DOMAIN DevSets : Expl(i)
+              THEN DevSets[CHOOSE i \in DOMAIN DevSets : Expl(i) /\ \A j \in 1..(i - 1) : ~Expl(j)] ELSE Pinned
+      blame == {d \in Suspects \cap dm : ~ContainedRes(tree, R(dm), rootp, usersp) /\ ContainedRes(tree, R(dm \ {d}), rootp, usersp)}
   IN /\ e.op = "req"
      /\ IF viol
           THEN Once(e.run, "c07") => Report("VIOL", "C07", e, "escape",
